@@ -381,6 +381,14 @@ def run_length(ctx, rule='C05.run-length'):
         for bb, t, c in calls_to_fn(F, fn, txfree):
             du = du or ctx.du(fn)
             _, atoms = du.slice_operand(t['args'][2]) if len(t['args']) > 2 else (None, set())
+            if len(t['args']) > 2 and not (ctx.A.module_private(fn) and fn.self_adt == txfree.self_adt):
+                e = du.sym(t['args'][2])
+                if e[0] == 'const':
+                    n += 1
+                    res.append(bad(rule, '%s | constant number of pages freed' % fn.qual,
+                                   '%s frees a run with the literal length %s at %s: pages are allocated in runs of `overflow + 1` pages (a node or value larger than a page spills '
+                                   'into overflow pages), so the overflow pages of such a run are never freed' % (fn.qual, e[1], fn.loc(bb)), where=fn.loc(bb)))
+                    continue
             if has_field(atoms, 'Page', 'overflow'):
                 n += 1
                 plus1 = any(a[0] == 'bin' and a[1].startswith('Add') for a in atoms) and any(a[0] == 'const' and a[1] == 1 for a in atoms)
